@@ -493,6 +493,24 @@ def blocking_config():
     return _config(BL + "config.py", "BlockingAsyncConfig", "blocking_cfg")
 
 
+# ------------------------------------------------------------------ the gate in front of the three analyzers
+def analyze_gate():
+    """check(): config, gate, analyzer, violations; _should_analyze: language, content, config.<enabled>, ignore patterns"""
+    fields, langs = set(), set()
+    for rel, cls, finder in ((UW + "linter.py", "UnwrapAbuseRule", "find_unwrap_calls"), (CL + "linter.py", "CloneAbuseRule", "find_clone_calls"),
+                             (BL + "linter.py", "BlockingAsyncRule", "find_blocking_calls")):
+        tmpl(rel, "check", r"config = self\._get_config\(context\)\nif not self\._should_analyze\(context, config\):\n    return \[\]\n"
+                           r"file_path = resolve_file_path\(context\)\ncalls = self\._analyzer\." + finder + r"\(context\.file_content or ''\)\n"
+                           r"return self\._build_violations\(calls, config, file_path\)", cls=cls)
+        m = tmpl(rel, "_should_analyze", r"if context\.language != " + S + r":\n    return False\nif not has_file_content\(context\):\n    return False\n"
+                                         r"if not config\.(\w+):\n    return False\nreturn not is_ignored_path\(resolve_file_path\(context\), config\.ignore\)", cls=cls)
+        langs.add(lit(m.group(1)))
+        fields.add(m.group(2))
+    if len(fields) != 1 or len(langs) != 1:
+        raise Unsupported(f"the three gates differ: {sorted(fields)} {sorted(langs)}")
+    return defn("analyze_language", "string", coq_string(langs.pop())) + defn("analyze_enabled_field", "string", coq_string(fields.pop()))
+
+
 ITEMS = [
     ("line_context", line_context),
     ("ctx_attr_walks", ctx_attr_walks),
@@ -513,4 +531,5 @@ ITEMS = [
     ("blocking_wrapper", blocking_wrapper),
     ("blocking_linter", blocking_linter),
     ("blocking_config", blocking_config),
+    ("analyze_gate", analyze_gate),
 ]
